@@ -27,6 +27,7 @@ import (
 	old_faithful_grpc "github.com/rpcpool/yellowstone-faithful/old-faithful-proto/old-faithful-grpc"
 	"github.com/rpcpool/yellowstone-faithful/slottools"
 	solanatxmetaparsers "github.com/rpcpool/yellowstone-faithful/solana-tx-meta-parsers"
+	"github.com/rpcpool/yellowstone-faithful/third_party/solana_proto/confirmed_block"
 	"github.com/rpcpool/yellowstone-faithful/tooling"
 	"golang.org/x/sync/errgroup"
 	"google.golang.org/grpc"
@@ -774,11 +775,7 @@ func (multi *MultiEpoch) processSlotTransactions(
 			hasOne := false
 			for _, acc := range filter.AccountInclude {
 				pkey := solana.MustPublicKeyFromBase58(acc)
-				ok, err := tx.HasAccount(pkey)
-				if err != nil {
-					klog.V(2).Infof("Failed to check if transaction %v has account %s", tx, acc)
-					return false
-				}
+				ok := transactionHasAccount(&tx, meta, pkey)
 				if ok {
 					hasOne = true
 					break // Found at least one included account, no need to check others
@@ -791,11 +788,7 @@ func (multi *MultiEpoch) processSlotTransactions(
 
 		for _, acc := range filter.AccountExclude {
 			pkey := solana.MustPublicKeyFromBase58(acc)
-			ok, err := tx.HasAccount(pkey)
-			if err != nil {
-				klog.V(2).Infof("Failed to check if transaction %v has account %s", tx, acc)
-				return false
-			}
+			ok := transactionHasAccount(&tx, meta, pkey)
 			if ok { // If any excluded account is present, filter out the transaction
 				return false
 			}
@@ -803,11 +796,7 @@ func (multi *MultiEpoch) processSlotTransactions(
 
 		for _, acc := range filter.AccountRequired {
 			pkey := solana.MustPublicKeyFromBase58(acc)
-			ok, err := tx.HasAccount(pkey)
-			if err != nil {
-				klog.V(2).Infof("Failed to check if transaction %v has account %s", tx, acc)
-				return false
-			}
+			ok := transactionHasAccount(&tx, meta, pkey)
 			if !ok { // If any required account is missing, filter out the transaction
 				return false
 			}
@@ -1045,6 +1034,31 @@ func (multi *MultiEpoch) processSlotTransactions(
 
 		return nil
 	}
+}
+
+// transactionHasAccount reports whether the transaction mentions the account, as a static
+// account key or as an address-table loaded address recorded in its metadata.
+// (solana.Transaction.HasAccount fails on versioned transactions whose lookup tables are not
+// resolved, which made every account filter drop them.)
+func transactionHasAccount(tx *solana.Transaction, meta any, account solana.PublicKey) bool {
+	for _, key := range tx.Message.AccountKeys {
+		if key == account {
+			return true
+		}
+	}
+	if m, ok := meta.(*confirmed_block.TransactionStatusMeta); ok && m != nil {
+		for _, key := range byteSlicesToKeySlice(m.LoadedWritableAddresses) {
+			if key == account {
+				return true
+			}
+		}
+		for _, key := range byteSlicesToKeySlice(m.LoadedReadonlyAddresses) {
+			if key == account {
+				return true
+			}
+		}
+	}
+	return false
 }
 
 type txBuffer struct {
